@@ -193,7 +193,8 @@ pub fn gen_space(ch: &mut Ch, kind: KindTag, mode: BoundsMode, fracs: bool) -> S
     let f = |ch: &mut Ch| if fracs { gen_frac(ch) } else { None };
     match kind {
         KindTag::RV => {
-            let dim = 1 + ch.weighted(&[2.0, 4.0, 2.0, 1.0]);
+            // dimensions 1-9 ("for all dimensions"): small ones most of the time
+            let dim = 1 + ch.weighted(&[2.0, 4.0, 2.0, 1.0, 0.5, 0.5, 0.4, 0.3, 0.3]);
             let c = gen_rv_comp(ch, dim, mode);
             let fr = f(ch);
             SpaceCfg::single(kind, c, fr)
@@ -216,7 +217,7 @@ pub fn gen_space(ch: &mut Ch, kind: KindTag, mode: BoundsMode, fracs: bool) -> S
             for _ in 0..n {
                 let c = match ch.below(3) {
                     0 => {
-                        let d = 1 + ch.below(3);
+                        let d = 1 + ch.weighted(&[3.0, 3.0, 3.0, 0.5, 0.5, 0.3, 0.3]);
                         gen_rv_comp(ch, d, mode)
                     }
                     1 => gen_so2_comp(ch, mode),
